@@ -58,7 +58,7 @@ pub fn def() -> PropDef {
     PropDef {
         id: "C10",
         level: "exploration",
-        rule: "histories with ~50% wrong-kind / missing / malformed / invalid-name paths and out-of-range seeks on clean and dirty handles; whenever a call returns NotFound, AlreadyExists or InvalidInput the backend bytes before and after must be identical and the model is left unchanged, so every later result (and the dumps every 5 ops and at the end, and the final reopen) is compared as if the call had not been made. Non-trivial = a refusal on a file with >=3 entries after >=1 successful mutation and followed by >=1 successful mutation (per-reason counts in classes); distinct = distinct case JSON.",
+        rule: "histories with ~50% wrong-kind / missing / malformed / invalid-name paths and out-of-range seeks on clean and dirty handles; whenever a call returns NotFound, AlreadyExists or InvalidInput the backend bytes before and after must be identical and the model is left unchanged, so every later result (and the dumps every 5 ops and at the end, and the final reopen) is compared as if the call had not been made. Non-trivial = a refusal on a file with >=3 entries after >=1 successful mutation and followed by >=1 successful mutation (per-reason counts in classes); distinct = distinct case JSON. Thorough tier: libFuzzer campaign fz_hist over byte-encoded histories (16-byte record per op) with this same runner and oracle.",
         assumptions: &["abstract model as in C01; refusal sets per DESIGN.md 3.1"],
         quick_cases: 2000,
         thorough_cases: 25000,
